@@ -148,6 +148,11 @@ impl HttpClient {
             client_builder = client_builder.timeout_connect(connect_timeout);
         }
 
+        // A connection that went back to the client's pool has its socket timeouts removed and
+        // does not get them back when it is used again (a redirect is enough for that), so the
+        // next read on it can block forever: do not keep idle connections
+        client_builder = client_builder.max_idle_connections(0);
+
         // Every request sent from this client will connect to the address set
         {
             let address = *address;
